@@ -215,7 +215,7 @@ def _grid(ctx: Ctx) -> typing.Iterable[typing.Any]:
             yield {"skeleton": m, "edits": [], "grid": "name:" + role}
     # --- fixed port-IDs around every boundary
     ports = [0, 1, 255, 256, 257, 382, 383, 384, 385, 510, 511, 512, 513, 6142, 6143, 6144, 6145, 7166, 7167, 7168, 7169, 8190, 8191, 8192, 8193, 65535]
-    for root in ("uavcan", "cyphal", "vendor", "uavcanx"):
+    for root in ("uavcan", "cyphal", "vendor", "uavcanx", "Uavcan", "UAVCAN", "Cyphal", "cyphaL", "uavcan_", "cyphal2"):  # names are case-sensitive: only the exact two are standard
         for service in (False, True):
             for port in ports:
                 for allow in (False, True):
